@@ -28,7 +28,8 @@ func (c *BetaController) UpdateBeta(body BetaBody) (BetaBody, error) {
 // @Method(GET)
 // @Route(/things)
 // @Query(filter)
-func (c *BetaController) ListBeta(filter []string) ([]BetaBody, error) {
+// @Query(rank, { validate: "oneof=mid" })
+func (c *BetaController) ListBeta(filter []string, rank Rank) ([]BetaBody, error) {
 	return nil, nil
 }
 
